@@ -282,13 +282,25 @@ def sepToks (sep : Tok) : List Tok → List Tok
 
 structure Opts where
   ver2020 : Bool := true
+  /-- `true`: undefined (`none`) on inputs under an open known finding (K-C01-1, K-C01-2) -/
+  guarded : Bool := false
+
+/-- trigger of the open known finding K-C01-1: a function body ends in `return a,b,…,undefined` with at least three
+    items; `trimReturn` then drops the `undefined` and the function returns the value before it -/
+def k1Trigger (acc : List S) : Bool :=
+  match splitLast acc with
+  | some (_, .ret (some v)) =>
+    !isUndefined v && (match v with
+      | comma l => isUndefined (lastD l v) && decide (3 ≤ l.length)
+      | _ => false)
+  | _ => false
 
 mutual
 /-- `minifyStmt`: tokens written and the value of `needsSemicolon` afterwards (it is false on entry) -/
 def printS (o : Opts) : Nat → S → Option (List Tok × Bool)
   | 0, _ => none
   | fuel + 1, s =>
-    let ef := fun (e : E) => (minE o.ver2020 (8 * size e + 64) e opExpr).map flat
+    let ef := fun (e : E) => (minGen (optNode o.guarded o.ver2020) (8 * size e + 64) e opExpr).map flat
     match s with
     | .expr e => (ef e).map (fun t => (t, true))
     | .ret none => some ([.kw "return"], true)
@@ -300,6 +312,7 @@ def printS (o : Opts) : Nat → S → Option (List Tok × Bool)
     | .fn name ps body =>
       -- `minifyFuncDecl`: hoistVars is a no-op without `var`; the body is optimised as a function block
       let body' := optStmtList (4 * sizeSL body + 16) body .function
+      if o.guarded && k1Trigger (optLoop (4 * sizeSL body + 15) [] body) then none else
       (printL o fuel body' false).map (fun t =>
         ([Tok.kw "function", Tok.ident name, Tok.p "("] ++ sepToks (Tok.p ",") ((keptParams ps body).map Tok.ident)
           ++ [Tok.p ")", Tok.p "{"] ++ t ++ [Tok.p "}"], false))
@@ -344,6 +357,7 @@ end
 def jsMinify (o : Opts) (prog : List S) : Option (List Char) :=
   let n := 4 * sizeSL prog + 16
   let l := optStmtList n prog .function
+  if o.guarded && k1Trigger (optLoop (n - 1) [] prog) then none else
   (printL o n l false).map emit
 
 end Verif.Model.JsStmt
